@@ -184,6 +184,27 @@ func c17Judge(c *mon.Ctx, aText, bText string, m V1Set) {
 		c.Violation("(v1) the re-read diff does not turn a into b", extra)
 		return
 	}
+	// the diff applied to the very node it was computed from
+	if len(d) > 0 {
+		A := ReadJ1(aText)
+		var P3 lib.JsonNode
+		var dd lib.Diff
+		if pan := mon.Safe(func() { dd = A.Diff(mkB(), m.MD()...); P3, err = A.Patch(dd) }); pan != "" {
+			extra["panic"] = pan
+			c.Violation("(v1) a.Patch(a.Diff(b)) on the very operand panicked", extra)
+			return
+		}
+		if err != nil || P3 == nil {
+			c.Violation("(v1) a.Patch(a.Diff(b)) on the very operand the diff was computed from failed: "+fmt.Sprint(err), extra)
+			return
+		}
+		if got := Plain1(P3); !v1Oracle(got, b, m) {
+			extra["patched"] = ref.ToJSON(got)
+			c.Violation("(v1) a.Patch(a.Diff(b)) on the very operand the diff was computed from does not give b", extra)
+			return
+		}
+		c.Feature("applied_to_the_operand_itself")
+	}
 	c.Feature("round_trips_ok")
 	c.Sample(extra)
 }
